@@ -429,7 +429,7 @@ impl ReadBackend for OpenDALBackend {
         length: u32,
     ) -> RusticResult<Bytes> {
         trace!("reading tpe: {tpe:?}, id: {id}, offset: {offset}, length: {length}");
-        let range = u64::from(offset)..u64::from(offset + length);
+        let range = u64::from(offset)..u64::from(offset) + u64::from(length);
         let path = self.path(tpe, id);
         let read_options = ReadOptions {
             range: range.into(),
